@@ -170,7 +170,10 @@ def _mgda(case, out):
             gamma = min(1.0, max(0.0, float((g2 - g1) @ g2) / d2))
             want = gamma * g1 + (1 - gamma) * g2
             amp = max(1.0, s / np.sqrt(d2))
-        out.within(float(np.linalg.norm(x - want)), K * eps * s * amp + 1e-300, "mgda-two-rows-closed-form",
+        # every further Frank-Wolfe iteration recomputes a step from a cancelling difference (b - a ~ 0 at the optimum):
+        # the rounding accumulates linearly with the number of iterations actually allowed
+        its = max(1.0, min(case["agg"].get("max_iters", 100), 100) / 4)
+        out.within(float(np.linalg.norm(x - want)), K * eps * s * amp * its + 1e-300, "mgda-two-rows-closed-form",
                    f"got {x.tolist()}, min-norm point of the segment {want.tolist()}")
     out.nontrivial = m >= 2 and bool((J @ J.T < 0).any())
 
